@@ -13,6 +13,11 @@ CLAIMED = {
    note="Trusted: Coq kernel + vm_compute + primitive floats; Reals axioms; harness. The rounding clause ('up to a small multiple of eps times conditioning') and finiteness for moderate floats are explored by an exact-rational sweep (thorough tier / on breakage), not proved. Input immutability and 'raises nothing' are observed by the harness.",
    technique="Coq proof (Reals, polymorphic model) + bit-exact vm_compute correspondence on primitive floats",
    design="4/C13"),
+ 'C14': dict(
+   text="Machine-checked proof (Coq 8.16.1): (EpsAlg) for every field and every n, the executable model fed s_0..s_n one term at a time holds the anti-diagonal of Wynn's epsilon table and returns the entry of highest even order (induction over the stream and the inner sweep), and one geometric transient is removed exactly from three terms; (Dea) for ANY arithmetic - in particular binary64 with whatever outcomes its comparisons have - any limexp >= 2 and any sequence length, no table read/write/slice-assignment is out of range (invariant over fold of calls), and over R every call returns abserr >= 5*eps*|result|. The binary64 instances of both models are compared call by call (result, abserr, _n, _nres, final table, raising) with the implementation on generated histories each run.",
+   note="Trusted: Coq kernel + vm_compute + primitive floats; Reals axioms for the floor theorem; harness. The 1e-60 guard of EpsAlg is idealised away in the field theorems (property: 'as long as no table difference vanishes'); Shanks' theorem for k >= 2 transients, finiteness of Dea's float outputs and agreement Dea/dea3/EpsAlg on the first terms are explored by a sweep with an exact-rational epsilon table, not proved.",
+   technique="Coq proof (mathcomp induction for the epsilon table; invariant over any Ops for Dea index safety) + bit-exact vm_compute correspondence of whole call histories",
+   design="4/C14"),
 }
 REASON_TODO = "not claimed yet: the Coq model, theorems and correspondence for this property are still being built (see DESIGN.md section 8 for the order)"
 def main():
